@@ -146,7 +146,7 @@ var leafKinds = []string{
 	"deferClosure", "deferArg", "goWait", "sendrecv", "recvStmt", "composite", "structLit", "applyMulti", "panicRecover",
 	"varFunc", "method", "generic", "multilineCall", "multilineExpr", "comment", "blockComment", "returnEarly", "goArg",
 	"ifCondClosure", "labeledIfElse", "closureMultiSig", "twoSingles", "closureSigMultiBodySingle", "selectRecv", "lineComment2",
-	"derefAssign", "derefMulti", "closure1Unicode", "returnThenLabel",
+	"derefAssign", "derefMulti", "closure1Unicode", "returnThenLabel", "ifchainInitReturns",
 }
 
 var compoundKinds = []string{"if", "ifelse", "ifchain", "ifinit", "for", "range", "switch", "switchinit", "typeswitch", "select",
@@ -676,6 +676,18 @@ func (w *writer) stmt(ind int, n *Node) {
 			w.line(ind+1, "return acc")
 		}
 		w.line(ind, "}")
+	case "ifchainInitReturns": // an else-if with an init statement in a chain whose branches all return
+		w.line(ind, "acc = func(x int) int {")
+		w.closure++
+		w.line(ind+1, "if x > %d {", 1000+k)
+		w.line(ind+2, "return x - 1")
+		w.line(ind+1, "} else if y := x * 2; y < %d {", k)
+		w.line(ind+2, "return y")
+		w.line(ind+1, "} else {")
+		w.line(ind+2, "return x + %d", k)
+		w.line(ind+1, "}")
+		w.closure--
+		w.line(ind, "}(acc)")
 	case "returnThenLabel": // statements behind an unconditional return, reached through goto
 		w.line(ind, "acc = func(x int) int {")
 		w.closure++
